@@ -78,6 +78,17 @@ impl World {
         World { vm }
     }
 
+    /// the same world with a runtime policy that also admits the 2 KiB proof types (partitions of two
+    /// sectors), so that deadlines with several partitions are cheap to build
+    pub fn new_small_sectors(strict_sigs: bool) -> World {
+        use fvm_shared::sector::{RegisteredPoStProof, RegisteredSealProof};
+        let mut w = World::new(strict_sigs);
+        w.vm.policy.valid_post_proof_type.insert(RegisteredPoStProof::StackedDRGWindow2KiBV1P1);
+        w.vm.policy.valid_pre_commit_proof_type.insert(RegisteredSealProof::StackedDRG2KiBV1P1);
+        w.vm.policy.valid_pre_commit_proof_type.insert(RegisteredSealProof::StackedDRG2KiBV1P1_Feat_SyntheticPoRep);
+        w
+    }
+
     /// Create `count` funded account actors; returns (id address, key address) pairs.
     pub fn create_accounts(&self, count: u64, seed: u64, balance: &TokenAmount) -> Vec<(Address, Address)> {
         let pks = vm_api::util::pk_addrs_from(seed, count);
